@@ -307,6 +307,6 @@ def run(F, tier, res):
                             'not the path as read: with --hyperlinks or --file-transformation a /dev/null side or a rename is no longer recognised' % bad[0], where=F.span_of_call(c))
             else:
                 ok5 += 1
-    res.rule('C14.CLASSIFY-RAW', n5, 2, 'path comparisons (with "/dev/null", old against new) in the function wording the file header: operands are the paths as read', discharged=ok5)
+    res.rule('C14.CLASSIFY-RAW', n5, 1, 'path comparisons (with "/dev/null", old against new) in the function wording the file header: operands are the paths as read', discharged=ok5)
     E.evidence(res, R)
     return res
